@@ -108,7 +108,8 @@ def empty_state(ctx) -> None:
     text = core.src(red.node)
     ctx.check('value, *args = args' in text and 'return self._action.reduce(actor, *args)' in text, 'C13.empty-state', red, 'the preset consumes the first argument and forwards the rest unchanged', red.node, key='Preset.reduce:args')
     gs = prog.func(f'{TASK}:Actor.get_state')
-    ctx.check("return b''" in core.src(gs.node) and 'not self.is_stateful()' in core.src(gs.node), 'C13.empty-state', gs, 'a stateless actor exports the empty state', gs.node, key='get_state:stateless')
+    er = [r for r in core.walk_local(gs.node) if isinstance(r, ast.Return) and core.src(r.value) in ("b''", 'bytes()')]
+    ctx.check(len(er) == 1 and cfg.cguards(er[0], gs.node, siblings=True) == [('self.is_stateful()', False)], 'C13.empty-state', gs, 'a stateless actor exports the empty state', gs.node, key='get_state:stateless')
 
 
 def _constant_return(fn_node: ast.AST) -> bool:
